@@ -25,6 +25,7 @@ func main() {
 	_ = tier
 	_ = aux
 	_ = n
+	enablePoison(mode)
 	switch mode {
 	case "parsecases":
 		runParseCases(*prop, *in, *out)
